@@ -55,6 +55,23 @@ def check(ctx, node, replay):
             ctx.disagreement("C02.model.flat", f"model: {mo}", replay)
         elif Tm.size and float(np.max(np.abs(Tm - T))) > tol:
             ctx.disagreement("C02.model.flat", "exact model of the flat circuit differs from the hierarchical solve", replay)
+        # the hierarchical model (HNet.solveH: every sub-circuit solved first, its exposed block handed up) on the same tree
+        ans = ctx.driver.ask({"op": "hsolve", "tree": hier.tree_json(node)})
+        if "T" not in ans:
+            ctx.disagreement("C02.model.hier", f"hierarchical model: {ans.get('err', '?')}", replay)
+        else:
+            order = [ans["pins"].index(nm) for nm in names] if sorted(ans["pins"]) == sorted(names) else None
+            if order is None:
+                ctx.disagreement("C02.model.hier", f"hierarchical model exposes {ans['pins']}, the code {names}", replay)
+            else:
+                n = len(ans["pins"])
+                Th = gen.json_mat_np([z for row in ans["T"] for z in row], n, n) if n else np.zeros((0, 0), complex)
+                Th = Th[np.ix_(order, order)] if n else Th
+                ctx.tag("model:hier")
+                if Th.size and float(np.max(np.abs(Th - T))) > tol:
+                    ctx.disagreement("C02.model.hier", "exact hierarchical model differs from the hierarchical solve of the code", replay)
+                elif mo == "ok" and Th.size and float(np.max(np.abs(Th - Tm))) > 1e-12:
+                    ctx.disagreement("C02.model.hier", "hierarchical and flat model differ (C02_transparent says they cannot)", replay)
     # solving twice gives the same (sub-solvers are shared objects)
     try:
         T2 = impl.solved_matrix(sol.solve(), names)[0]
